@@ -1571,7 +1571,10 @@ _vbi_cache_put_page		(vbi_cache *		ca,
 			if (memory_available >= memory_needed)
 				goto replace;
 
+			/* Pages of unreferenced networks have all been
+			   collected by the loop above. */
 			if (pri != cp->priority
+			    || 0 == cp->network->ref_count
 			    || cp == old_cp)
 				continue;
 
